@@ -309,8 +309,8 @@ def list_same_as(ctx, snap, lst):
 
 
 @specfn('lists_unchanged_but')
-def lists_unchanged_but(ctx, lst):
-    """every list allocated at entry other than `lst` is unchanged"""
+def lists_unchanged_but(ctx, *lsts):
+    """every list allocated at entry other than the given ones is unchanged"""
     st, old = ctx.st, ctx.entry
     r = z3.Int(fresh_name('r'))
     conj = []
@@ -320,5 +320,5 @@ def lists_unchanged_but(ctx, lst):
         now, then = _fam_now(st, name), _fam_now(old, name)
         if now is then or z3.eq(now, then):
             continue
-        conj.append(forall([r], z3.Implies(z3.And(r > 0, r < old.alloc, r != lst.t), z3.Select(now, r) == z3.Select(then, r)), patterns=[z3.Select(now, r)]))
+        conj.append(forall([r], z3.Implies(z3.And(r > 0, r < old.alloc, *[r != l_.t for l_ in lsts]), z3.Select(now, r) == z3.Select(then, r)), patterns=[z3.Select(now, r)]))
     return mk_bool(z3.And(*conj) if conj else z3.BoolVal(True))
